@@ -37,4 +37,8 @@ def recovered (srv : Nat) (outpoint : OutPoint) (value expiry version bk hint : 
     bk := bk, heightHint := hint,
     latestTx := if Lifecycle.recoveryNoLatestTx.contains srv then none else latest }
 
+/-- `AdvanceAccountDerivationIndex`: the wallet's pool account key count afterwards.  Keys are derived until
+the derived key's *index* reaches `minIndex` (count = index + 1), unless the wallet is already ahead. -/
+def advance (count minIndex : Nat) : Nat := if count > minIndex then count else minIndex + 1
+
 end Pool.C20
